@@ -79,3 +79,5 @@ LEVEL = {
     'technique': 'Coq proof (posting/frequency/corpus-size invariant by induction over histories; match set exact; top-k for every score function) '
                  '+ replay of real text searches judged by the checker',
 }
+
+CFG['rule'] = CFG['rule'] + ' ' + "Additions: half of the updates rewrite the point's OWN stored text into a variant (a word dropped, doubled, replaced or case-changed) and queries are drawn from recently written texts, so that stale postings and stale term frequencies are hit."
